@@ -1113,7 +1113,110 @@ def c14(ctx):
     selftest(ctx, "InjectTrace", "InjectTrace.cfg", framed[0], [("frame-without-url-or-cache-headers", frame_not_ok), ("frame-on-post", frame_on_post)])
 
 
-CHECKS = {"C14": c14, "C11": c11, "C12": c12, "C13": c13, "C10": c10, "C08": c08, "C20": c20, "C02": c02, "C03": c03, "C09": c09, "C01": c01, "C04": c04, "C07": c07, "C05": c05, "C06": c06}
+def bridge_run(ctx):
+    import random
+    tlc_must_hold(ctx, "TcpBridge", "TcpBridge_MC.cfg")
+    tlc_must_fail(ctx, "TcpBridge", "TcpBridge_Attack_WaitBoth.cfg")
+    gen = tlc_generate(ctx, "TcpBridgeGen", "TcpBridgeGen.cfg", "bridge_domains.json")
+    dom = json.load(open(gen))
+    rnd = random.Random(ctx.seed)
+    cs = class_cases(dom, 300 if ctx.tier == "thorough" else 12, rnd)
+    cpath = os.path.join(ctx.scratch, "bridge_cases.json")
+    json.dump({"cases": [cap(c) for c in cs]}, open(cpath, "w"))
+    go_build_repo(ctx, "./utils/tcpbridge/tcp-bridge-frontend", "tcp-bridge-frontend")
+    go_build_repo(ctx, "./utils/tcpbridge/tcp-bridge-backend", "tcp-bridge-backend")
+    go_build_harness(ctx)
+    events, _ = drive(ctx, "bridge", cases=cpath, timeout=3000)
+    return events
+
+
+def bridge_report(ctx, fails, label):
+    for seg, idx, out, inv in fails:
+        e = seg[min(max(idx, 0), len(seg) - 1)]
+        ev = {k: v for k, v in e.items() if k not in ("pid", "seq", "src")}
+        closes = [(x.get("c"), x.get("d")) for x in seg if x.get("ev") == "PeerClose"]
+        eofs = [(x.get("c"), x.get("d")) for x in seg if x.get("ev") == "PeerEOF"]
+        sig = "%s:%s" % (seg[0].get("sig"), e.get("ev"))
+        what = "%s %s: event #%d %s not allowed by TcpBridge (closes %s, end-of-stream observed for %s)" % (label, seg[0].get("sig"), idx + 1, json.dumps(ev, sort_keys=True)[:300], closes, eofs)
+        report_failure(ctx, sig, what, seg=seg, tlc_out=out[-3000:])
+
+
+def c15(ctx):
+    ctx.rule = ("cases = each-class sweep + seeded combinations over closer x amount of data in each direction x write segment size {1, small, 1024, 1025, 64 KB} x "
+                "read buffer size {1, 7, 1024, 4096, 64 KB} (domains exported by TLC) through the real tcp-bridge-frontend and tcp-bridge-backend binaries with harness "
+                "TCP peers at both ends, all 256 byte values, both directions at once; 4 (quick) / 16 (thorough) concurrent connections with 256 KB / 8 MB each way; "
+                "plain HTTP GET and POST to the bridge backend; distinct = class combinations")
+    ctx.assumptions = ["content of every read is compared with the expected stream position by the harness (reported as ok) and the byte counts are judged by TcpBridgeTrace",
+                       "close events are projected away for C15 (they are judged by C16)"]
+    events = bridge_run(ctx)
+    ev = []
+    for e in events:
+        if e.get("ev") == "PeerEOF":
+            continue
+        if e.get("ev") == "Final":
+            e = dict(e, judge_close=False)
+        ev.append(e)
+    segs = split_segments(ev)
+    fails = validate_segments(ctx, "TcpBridgeTrace", "TcpBridgeTrace.cfg", segs, batch=40)
+    bridge_report(ctx, fails, "stream")
+    good = [s for s in segs if not any(s is f[0] for f in fails) and sum(1 for e in s if e.get("ev") == "Rd") >= 2]
+    if good:
+        def corrupt(seg):
+            for e in seg:
+                if e.get("ev") == "Rd":
+                    e["ok"] = False
+                    return True
+            return False
+
+        def lost(seg):
+            for i in range(len(seg) - 1, -1, -1):
+                if seg[i].get("ev") == "Rd":
+                    del seg[i]
+                    return True
+            return False
+
+        def extra(seg):
+            for i, e in enumerate(seg):
+                if e.get("ev") == "Rd":
+                    seg.insert(i + 1, dict(e, n=10 ** 7))
+                    return True
+            return False
+        selftest(ctx, "TcpBridgeTrace", "TcpBridgeTrace.cfg", good[0], [("byte-corrupted", corrupt), ("bytes-lost", lost), ("bytes-duplicated", extra)])
+
+
+def c16(ctx):
+    ctx.rule = ("cases = same class combinations as C15 (who closes first x data in flight in either direction x segmentations), judged for close propagation: the far "
+                "peer must observe end-of-stream within 10 s, after all data sent before the close, and the TCP server must hold no bridged connection afterwards; "
+                "distinct = class combinations")
+    ctx.assumptions = ["'bounded time' = 10 s (normal propagation takes milliseconds)"]
+    events = [dict(e, judge_close=True) if e.get("ev") == "Final" else e for e in bridge_run(ctx)]
+    segs = split_segments(events)
+    fails = validate_segments(ctx, "TcpBridgeTrace", "TcpBridgeTrace.cfg", segs, batch=40)
+    bridge_report(ctx, fails, "close")
+    good = [s for s in segs if not any(s is f[0] for f in fails) and any(e.get("ev") == "PeerEOF" for e in s)]
+    if good:
+        def no_eof(seg):
+            n = len(seg)
+            seg[:] = [e for e in seg if e.get("ev") != "PeerEOF"]
+            return len(seg) < n
+
+        def early_eof(seg):
+            for i, e in enumerate(seg):
+                if e.get("ev") == "PeerEOF":
+                    seg.insert(1, seg.pop(i))
+                    return True
+            return False
+
+        def leak(seg):
+            for e in seg:
+                if e.get("ev") == "Final":
+                    e["server_open"] = 1
+                    return True
+            return False
+        selftest(ctx, "TcpBridgeTrace", "TcpBridgeTrace.cfg", good[0], [("close-not-propagated", no_eof), ("eof-without-close", early_eof), ("connection-leaked", leak)])
+
+
+CHECKS = {"C15": c15, "C16": c16, "C14": c14, "C11": c11, "C12": c12, "C13": c13, "C10": c10, "C08": c08, "C20": c20, "C02": c02, "C03": c03, "C09": c09, "C01": c01, "C04": c04, "C07": c07, "C05": c05, "C06": c06}
 
 if __name__ == "__main__":
     pid = sys.argv[1]
